@@ -74,7 +74,7 @@ def run(ctx):
               'CONC = concurrent perturbed histories with monitors only. BLK (elastic pools) = 1..4 tasks hinted to worker w are blocked on a pika::latch / '
               'condition variable / sync_wait of a default-pool sender (state suspended, owned by w\'s queues: scheduler get_thread_count(suspended, w) is recorded) '
               'when suspend_processing_unit_direct(w) is issued from an OS thread or a task of the default pool; they are released only after the call '
-              'returned: monitors = the call returns within 5 s with w sleeping and no error, tasks then submitted to the remaining workers run '
+              'returned: monitors = the call returns within 10 s with w sleeping and no error, tasks then submitted to the remaining workers run '
               'without a resume, the released tasks finish (before or after the resume, ledger), none continues on the suspended unit. Non-trivial SEQ case: contains a suspend and a later '
               'submission; distinct = distinct (configuration, history)')
     ctx.build_pika()
@@ -284,7 +284,7 @@ def run(ctx):
                 sts = kvs.get('states_at_return', '').split(',')
                 if kvs.get('returned') != '1':
                     r.hits.append(Hit('monitor', 'C19:suspend_pu:waits_for_blocked_tasks',
-                                      'suspend_processing_unit_direct(%d) did not return within 5 s while %s tasks (of which %s owned by the queues of worker %d) were '
+                                      'suspend_processing_unit_direct(%d) did not return within 10 s while %s tasks (of which %s owned by the queues of worker %d) were '
                                       'blocked on a latch / condition variable / sync_wait that is released only after the call returned: the call waits for '
                                       'blocked tasks (states %s, %s finished) (%s %s, case %s): %s'
                                       % (w_, kvs.get('K'), kvs.get('suspended_owned_by_w'), w_, kvs.get('states_at_return'), kvs.get('finished_at_return'), cfgs, pol, c, o), rep))
@@ -297,7 +297,7 @@ def run(ctx):
                     if kvs.get('others_done') != '1':
                         r.hits.append(Hit('monitor', 'C19:suspend_pu:remaining_workers_stalled',
                                           'after suspend_processing_unit_direct(%d) returned (the unit owns blocked tasks) tasks submitted to the remaining running workers '
-                                          'did not complete within 5 s without a resume (%s %s, case %s): %s' % (w_, cfgs, pol, c, o), rep))
+                                          'did not complete within 10 s without a resume (%s %s, case %s): %s' % (w_, cfgs, pol, c, o), rep))
                     if kvs.get('body_on_suspended') != '0':
                         r.hits.append(Hit('monitor', 'C19:body_on_suspended_pu', 'a released task continued on processing unit %s after its suspend call had returned '
                                           'and before any resume was issued (%s %s, case %s)' % (kvs.get('w'), cfgs, pol, c), rep))
